@@ -244,38 +244,68 @@ let parse_sop = function
 
 let parse_which = function "first" -> First | "last" -> Last | _ -> All
 
+let sety_of = function "SE0" -> SE0 | "SEI" -> SEI | "SEM" -> SEM | "SEU" -> SEU | _ -> ST
+let cety_of = function "CE0" -> CE0 | "CEM" -> CEM | _ -> CT
+let sety_name = function SE0 -> "SE0" | SEI -> "SEI" | SEM -> "SEM" | SEU -> "SEU" | ST -> "ST"
+let cety_name = function CE0 -> "CE0" | CEM -> "CEM" | CT -> "CT"
+let ent_sfx = function Some e -> ":r" ^ dec e | None -> ""
+let parse_ent = function [] -> None | s :: _ -> Some (n_of_dec (String.sub s 1 (String.length s - 1)))
+
+let print_base track o =
+  match o with
+  | ONone -> ()
+  | OSFrame (fo, _) ->
+    Printf.printf "srv tick=%s ran=%s\n" (dec fo.fo_tick) (if fo.fo_ran then "1" else "0")
+  | OCFrame _ -> ()
+  | OPanic -> print_endline "PANIC model"
+
 let sim_main () =
   let sys = ref None in
   let track = ref false in
-  let sops = ref [] and cops = Hashtbl.create 4 and parts = ref [] in
+  let sops = ref [] and semit = ref [] and cops = Hashtbl.create 4 and cemit = Hashtbl.create 4 and parts = ref [] in
   let dead = ref false in
   let do_step st =
     match !sys with
     | None -> ()
     | Some y ->
       if !dead then print_endline "dead model" else
-      (match sys_step y st with
-       | Ok (y', o) ->
+      (match syse_step y st with
+       | Ok (y', eo) ->
          sys := Some y';
-         (match o with
-          | ONone -> ()
+         (match eo.eo_base with
           | OSFrame (fo, views) ->
             Printf.printf "srv tick=%s ran=%s\n" (dec fo.fo_tick) (if fo.fo_ran then "1" else "0");
-            List.iter (fun (co : client_out) ->
-              if co.co_bad_partition then Printf.printf "bad-partition %s\n" (dec co.co_slot);
-              (match co.co_update with Some u -> print_update co.co_slot u | None -> ());
-              List.iter (print_mutate !track co.co_slot) co.co_mutates)
-              (List.sort (fun (a : client_out) (b : client_out) -> compare (int_of_n a.co_slot) (int_of_n b.co_slot)) fo.fo_clients);
+            let slots = List.sort_uniq compare
+              (List.map (fun (co : client_out) -> int_of_n co.co_slot) fo.fo_clients @ List.map (fun (s, _) -> int_of_n s) eo.eo_sent) in
+            List.iter (fun slot ->
+              List.iter (fun (co : client_out) ->
+                if int_of_n co.co_slot = slot then begin
+                  if co.co_bad_partition then Printf.printf "bad-partition %s\n" (dec co.co_slot);
+                  (match co.co_update with Some u -> print_update co.co_slot u | None -> ());
+                  List.iter (print_mutate !track co.co_slot) co.co_mutates end) fo.fo_clients;
+              List.iter (fun (s, (m : smsg)) ->
+                if int_of_n s = slot then
+                  Printf.printf "evt %d %s t=%s %s%s\n" slot (sety_name m.sm_ty)
+                    (match m.sm_tick with Some t -> dec t | None -> "-") (dec m.sm_seq) (ent_sfx m.sm_ent)) eo.eo_sent) slots;
+            if eo.eo_from <> [] then
+              Printf.printf "from %s\n" (String.concat "," (List.map (fun (slot, (ev : cev)) ->
+                Printf.sprintf "%s:%s%s@%s" (cety_name ev.cev_ty) (dec ev.cev_seq) (ent_sfx ev.cev_ent) (dec slot)) eo.eo_from));
             List.iter (fun (slot, ents) ->
               Printf.printf "view %s %s\n" (dec slot) (joinl (List.map (fun (e, cs) -> dec e ^ ":" ^ scomps cs) ents)))
               (List.sort (fun (a, _) (b, _) -> compare (int_of_n a) (int_of_n b)) views)
           | OCFrame (slot, cfo, v) ->
             if cfo.cfo_acks <> [] then Printf.printf "ack %s %s\n" (dec slot) (String.concat "," (List.map dec cfo.cfo_acks));
+            List.iter (fun (ev : cev) -> Printf.printf "cevt %s %s %s%s\n" (dec slot) (cety_name ev.cev_ty) (dec ev.cev_seq) (ent_sfx ev.cev_ent)) eo.eo_csent;
             if cfo.cfo_tick_events <> [] then Printf.printf "tickrecv %s %s\n" (dec slot) (String.concat "," (List.map dec cfo.cfo_tick_events));
+            if eo.eo_got <> [] then
+              Printf.printf "got %s %s\n" (dec slot) (String.concat "," (List.map (fun ((ty, seq), ent) ->
+                Printf.sprintf "%s:%s%s" (sety_name ty) (dec seq) (ent_sfx ent)) eo.eo_got));
             print_cview slot v
+          | ONone -> ()
           | OPanic -> print_endline "PANIC model")
        | Err -> dead := true; print_endline "ERR model"
        | Panic -> dead := true; print_endline "PANIC model") in
+  ignore print_base;
   (try while true do
     let line = String.trim (input_line stdin) in
     if line = "" || line.[0] = '#' then () else begin
@@ -289,32 +319,53 @@ let sim_main () =
          let auth = (match get "auth" "none" with "custom" -> AuthCustom | "proto" -> AuthProto | _ -> AuthNone) in
          track := (get "track" "0" = "1");
          let c = { cfg_policy = policy; cfg_auth = auth; cfg_track = !track; cfg_timeout = n_of_dec (get "timeout" "10000") } in
-         sys := Some (sys_init c (n_of_dec (get "nclients" "1")));
-         dead := false; sops := []; Hashtbl.reset cops; parts := [];
+         sys := Some (syse_init c (n_of_dec (get "nclients" "1")));
+         dead := false; sops := []; semit := []; Hashtbl.reset cops; Hashtbl.reset cemit; parts := [];
          print_endline "scenario"
        | ["part"; c; spec] ->
          let p = if spec = "-" then [[]] else
            List.map (fun m -> List.map n_of_dec (String.split_on_char ',' m)) (String.split_on_char '|' spec) in
          parts := (n_of_dec c, p) :: !parts; dot := false
+       | "sop" :: "ev" :: ty :: mode :: seq :: rest ->
+         let m = (match mode with
+           | "b" -> ((n_of_int 999, false), false)
+           | "ds" -> ((n_of_int 998, false), false)
+           | _ when mode.[0] = 'x' -> ((n_of_dec (String.sub mode 1 (String.length mode - 1)), true), false)
+           | _ -> ((n_of_dec (String.sub mode 1 (String.length mode - 1)), false), true)) in
+         let ty = sety_of ty in
+         let ent = parse_ent rest in
+         (* SEM without a known entity is not emitted by the harness; the server table is not visible here, the
+            generator only names spawned entities *)
+         semit := (((ty, m), n_of_dec seq), ent) :: !semit
        | "sop" :: rest -> (match parse_sop rest with Some op -> sops := op :: !sops | None -> ())
        | ["cop"; c; "prespawn"; pc] -> Hashtbl.replace cops c (CPrespawn (n_of_dec pc) :: (try Hashtbl.find cops c with Not_found -> []))
        | ["cop"; c; "despawn"; pc] -> Hashtbl.replace cops c (CDespawn (n_of_dec pc) :: (try Hashtbl.find cops c with Not_found -> []))
+       | "cop" :: c :: "ev" :: ty :: seq :: rest ->
+         Hashtbl.replace cemit c ({ cev_ty = cety_of ty; cev_seq = n_of_dec seq; cev_ent = parse_ent rest } :: (try Hashtbl.find cemit c with Not_found -> []))
        | "sframe" :: tick :: rest ->
          let dt = (match rest with d :: _ -> n_of_dec d | [] -> N0) in
-         let ops = List.rev !sops and ps = List.rev !parts in
-         sops := []; parts := [];
-         do_step (StSFrame (tick = "1", dt, false, ops, ps))
+         let ops = List.rev !sops and ps = List.rev !parts and em = List.rev !semit in
+         sops := []; parts := []; semit := [];
+         do_step (ESFrame (tick = "1", dt, ops, ps, em))
        | ["cframe"; c] ->
          let ops = List.rev (try Hashtbl.find cops c with Not_found -> []) in
-         Hashtbl.remove cops c;
-         do_step (StCFrame (n_of_dec c, ops))
-       | ["start"] -> do_step StStart
-       | ["stop"] -> do_step StStop
-       | ["connect"; c; m] -> do_step (StConnect (n_of_dec c, n_of_dec m))
-       | ["authorize"; c] -> do_step (StAuthorize (n_of_dec c))
-       | ["disconnect"; c] -> do_step (StDisconnect (n_of_dec c))
-       | ["deliver"; c; dir; ch; w] -> do_step (StDeliver (n_of_dec c, dir = "s2c", n_of_dec ch, parse_which w))
-       | ["drop"; c; dir; ch; w] -> do_step (StDrop (n_of_dec c, dir = "s2c", n_of_dec ch, parse_which w))
+         let em = List.rev (try Hashtbl.find cemit c with Not_found -> []) in
+         Hashtbl.remove cops c; Hashtbl.remove cemit c;
+         do_step (ECFrame (n_of_dec c, ops, em))
+       | ["start"] -> do_step (EBase StStart)
+       | ["stop"] -> do_step (EBase StStop)
+       | ["connect"; c; m] -> do_step (EBase (StConnect (n_of_dec c, n_of_dec m)))
+       | ["authorize"; c] -> do_step (EBase (StAuthorize (n_of_dec c)))
+       | ["disconnect"; c] -> do_step (EBase (StDisconnect (n_of_dec c)))
+       | [("deliver" | "drop") as verb; c; dir; ch; w] ->
+         let chn = int_of_string ch in
+         let s2c = (dir = "s2c") in
+         if (s2c && chn <= 1) || ((not s2c) && chn = 0) then
+           do_step (EBase (if verb = "deliver" then StDeliver (n_of_dec c, s2c, n_of_dec ch, parse_which w)
+                           else StDrop (n_of_dec c, s2c, n_of_dec ch, parse_which w)))
+         else if s2c then
+           do_step (EDeliverS2C (n_of_dec c, List.nth [SE0; SEI; SEM; SEU; ST] (chn - 2), parse_which w, verb = "drop"))
+         else do_step (EDeliverC2S (n_of_dec c, List.nth [CE0; CEM; CT] (chn - 1), parse_which w))
        | _ -> print_endline ("unknown-step " ^ List.hd t));
       if !dot then print_endline "."
     end
